@@ -18,6 +18,7 @@ def P(qr, qw, tr, tw, **kw):
 PLAN = {
     "C01": P(6000, 75, 200000, 900),
     "C02": P(5000, 75, 150000, 900),
+    "C05": P(1500, 90, 40000, 900, chunk=150),
     "C16": P(2500, 90, 60000, 900),
     "C19": P(2500, 90, 60000, 900),
     "C13": P(800, 110, 20000, 1500, chunk=60, watchdog_s=120),
@@ -34,6 +35,11 @@ PLAN = {
 }
 
 LEVELS = {
+    "C05": {"level": "exploration", "rule": RULE,
+            "text": "pairs of trees with controlled overlap (identical, disjoint, kept / changed / removed / renamed / added paths, empty trees) are uploaded as two bundles; the first is downloaded, Diff(local copy, second bundle) is compared with the model's symmetric difference (each path once, A/D/U decided by content key), then Update runs with every local-disk call (mkdir, open, write, close, remove) and every store call a scheduling point - and, in a second configuration, a fault point (EIO, short write + ENOSPC, failing blob reads); a successful Update must leave the directory byte-identical, .datamon metadata included, to a fresh download of the second bundle",
+            "note": "weak-replay: the order in which Update schedules its file operations follows Go map iteration inside diffBundles; violations must reproduce on replay",
+            "components": {"real": ["pkg/core diff/update/download/upload", "pkg/storage/localfs", "pkg/cafs"], "stub": STUB + ["simfs over MemMapFs"]},
+            "assumptions": []},
     "C16": {"level": "exploration", "rule": RULE,
             "text": "(a) seeded histories of Put (overwrite / create-if-absent) / Get / GetAt / Has / GetAttr / Delete / Keys / KeysPrefix (every page size, following next, also after abandoning a pagination half-way) over hierarchical keys whose components are prefixes of one another, on MemMapFs and on a real temporary directory, checked step by step against a map model whose listing is exact-prefix, delimiter roll-up, lexicographic, each item once; (b) 2..4 writers creating the same key with create-if-absent through simfs, where every afero call (mkdir, open O_EXCL, write, close) of every writer is a scheduling point and the back-off runs on the simulated clock: exactly one wins and the key holds its bytes",
             "note": "keys are generated so that no key is a directory prefix of another (a file system cannot hold both); Keys() order is not asserted",
